@@ -402,7 +402,14 @@ func (p *Prop[C]) eval(st *Stats, part string, c C) *Violation {
 	}
 	nontrivial, labels := false, []string(nil)
 	if p.Classify != nil {
-		nontrivial, labels = p.Classify(c)
+		// classification may call the code under test (e.g. to see whether a text parses): a panic there must not take
+		// the process down before the violation found by Check is recorded
+		if pi := guard(func() { nontrivial, labels = p.Classify(c) }); pi != nil {
+			nontrivial, labels = false, []string{"classify-panicked"}
+			if v == nil {
+				v = panicViolation("classifying the case", pi)
+			}
+		}
 	}
 	if v != nil && p.KF != nil {
 		sigs := []string{}
